@@ -32,6 +32,25 @@ pub fn looks_like_scheme(bytes: &[u8]) -> bool {
 	false
 }
 
+/// Checks if the first segment of the given path contains a `:`.
+///
+/// Such a path cannot start a relative reference: the text before the `:`
+/// would either be read as a scheme or make the reference invalid
+/// (`path-noscheme` forbids `:` in its first segment). It must be prefixed
+/// with `./` when it is not preceded by a scheme or an authority.
+#[inline]
+pub fn first_segment_has_colon(bytes: &[u8]) -> bool {
+	for &b in bytes {
+		match b {
+			b':' => return true,
+			b'/' => return false,
+			_ => (),
+		}
+	}
+
+	false
+}
+
 #[derive(Debug, PartialEq, Eq)]
 pub enum SchemeAuthorityOrPath {
 	Scheme,
